@@ -32,6 +32,7 @@ import (
 	"github.com/dadrus/heimdall/internal/heimdall"
 	"github.com/dadrus/heimdall/internal/rules/mechanisms/contenttype"
 	"github.com/dadrus/heimdall/internal/x"
+	"github.com/dadrus/heimdall/internal/x/httpx"
 	"github.com/dadrus/heimdall/internal/x/stringx"
 )
 
@@ -64,7 +65,9 @@ func NewRequestContext(ctx context.Context, req *envoy_auth.CheckRequest) *Reque
 
 	// envoy sends the path as received, without decoding it. As with the http based services, the
 	// url exposed to the rules and mechanisms consists of the decoded path and the raw (escaped) path
-	rawPath := req.GetAttributes().GetRequest().GetHttp().GetPath()
+	// Characters, which are not valid in an escaped path, but sent as they are, are encoded, as it
+	// is done by the http based services. Otherwise, the very same request would not be seen the same way.
+	rawPath := httpx.NormalizeRawPath(req.GetAttributes().GetRequest().GetHttp().GetPath())
 
 	path, err := url.PathUnescape(rawPath)
 	if err != nil {
